@@ -14,6 +14,7 @@ DECIDED = ("R1 crash sequence in Sim::crash: World::current is set to the host b
            "exactly once per call and stores the handle; R6 per-host state is keyed by the host operated on (Sim::crash / step look the "
            "Fs / io_uring state up under the same address as the runtime; Host::new builds fresh Arcs).")
 NOT_DECIDED = "that destructors of user tasks run (tokio's contract for dropping a runtime), prompt unblocking times."
+DECIDED += "; R7 exhaustive scans: Sim::crash, Sim::run_with_hosts and IoUringHostState::crash visit every element"
 ASSUMPTIONS = ["dropping a tokio Runtime and LocalSet drops every task they own"]
 
 
